@@ -36,6 +36,8 @@ package gocvss20
 //@   ensures[frame_other_metrics] (forall-in (m 0 13) (=> (not (and (isnil result) (= m (midx20 abv)))) (= (field20 cvss20 m) (field20 (old cvss20) m))))
 //@   ensures[fail_unchanged] (=> (not (isnil result)) (= cvss20 (old cvss20)))
 //@   ensures[wf_preserved] (wf20 cvss20)
+//@   ensures[vals_array] (=> (isnil result) (= (valsarr20 cvss20) (store (valsarr20 (old cvss20)) (midx20 abv) (vcode20 (midx20 abv) value))))
+//@   ensures[error_value] (=> (not (isnil result)) (= result (ite (< (midx20 abv) 0) (PErr T_ErrInvalidMetric abv) ErrInvalidMetricValue)))
 //@   ensures[err_unknown_metric] (=> (< (midx20 abv) 0) (and (is-ErrInvalidMetric result) (str= (pabv result) abv)))
 //@   ensures[err_illegal_value] (=> (and (>= (midx20 abv) 0) (= (vcode20 (midx20 abv) value) #xff)) (= result ErrInvalidMetricValue))
 //@   allocs 0
@@ -84,7 +86,7 @@ package gocvss20
 
 //@ func (CVSS20).TemporalScore(cvss20)
 //@   requires[wf] (wf20 cvss20)
-//@   ensures[spec] (and (fp.eq result (tenth (kof result))) (tempRel20 (kof $BaseScore#1) cvss20 (kof result)))
+//@   ensures[spec] (and (fp.eq result (tenth (kof result))) (tempRel20 (kof $CVSS20.BaseScore#1) cvss20 (kof result)))
 //@   ensures[one_decimal_in_scale] (exists-in (k 0 100) (fp.eq result (tenth k)))
 //@   oracle[spec_closed] (and (fp.eq result (tenth (kof result))) (exists-in (kb 0 100) (and (baseRel20 cvss20 kb) (tempRel20 kb cvss20 (kof result)))))
 //@   allocs 0
@@ -98,3 +100,40 @@ package gocvss20
 //@   ensures[one_decimal_in_scale] (exists-in (k -2 100) (fp.eq result (tenth k)))
 //@   oracle[spec_closed] (and (fp.eq result (tenth (kof result))) (exists-in (ka -2 100) (and (adjBaseRel20 cvss20 ka) (exists-in (kt -2 100) (and (tempRel20 ka cvss20 kt) (envRel20 kt cvss20 (kof result)))))))
 //@   allocs 0
+
+// ---- split / ParseVector (C01, C06, C13, C14, C18) against the reference fold parseRes20 ----
+
+//@ smt (define-fun flat20 ((g Int) (k Int)) Int (+ (goff20 g) k))
+//@ smt (define-fun validpos20 ((g Int) (k Int)) Bool (and (<= 0 g) (<= g NGROUPS20) (<= 0 k) (or (< k (gsize20 g)) (and (= g NGROUPS20) (= k 0)))))
+
+//@ func split(dst, vector)
+//@   requires[room] (>= (len dst) 14)
+//@   modifies dst
+//@   loop 1 invariant[bounds] (and (<= 0 start) (<= start i) (<= i l) (= l (len vector)) (<= 0 curr) (<= curr 12) (= start (segstart20 vector curr)))
+//@   loop 1 invariant[nosep] (forall ((p Int)) (! (=> (and (<= (+ vector.off start) p) (< p (+ vector.off i))) (not (= (select vector.arr p) #x2f))) :pattern ((select vector.arr p))))
+//@   loop 1 invariant[parts] (forall-in (k 0 12) (=> (< k curr) (and (same-str (at dst k) (substr vector (segstart20 vector k) (segend20 vector k))) (< (segend20 vector k) (len vector)))))
+//@   loop 1 decreases (- l i)
+//@   loop 1 lemma_back[segment_end] (=> (not (= curr (hdr curr))) (= (nextsep vector (hdr start)) (hdr i)))
+//@   ensures[count] (and (<= 0 result) (<= result 13))
+//@   ensures[parts] (forall-in (k 0 13) (=> (<= k result) (same-str (at dst k) (substr vector (segstart20 vector k) (segend20 vector k)))))
+//@   ensures[separated] (forall-in (k 0 12) (=> (< k result) (< (segend20 vector k) (len vector))))
+//@   ensures[last_reaches_end] (= (segend20 vector result) (len vector))
+//@   allocs 0
+
+//@ func ParseVector(vector)
+//@   opt split_returns
+//@   callee_posts (*CVSS20).Set ok_iff_legal wf_preserved vals_array error_value
+//@   loop 1 invariant[bounds] (and (<= (- 1) rangeindex) (<= rangeindex ei) (<= 0 ei) (<= ei 13) (validpos20 slci i) (or (and (= rangeindex (- 1)) (= slci 0) (= i 0)) (and (>= rangeindex 0) (> (flat20 slci i) 0))))
+//@   loop 1 invariant[fold] (= (fold20 vector 0 0 0 noVals) (fold20 vector (segstart20 vector (+ rangeindex 1)) (+ rangeindex 1) (flat20 slci i) (valsarr20 cvss20)))
+//@   loop 1 invariant[wf] (wf20 cvss20)
+//@   loop 1 invariant[first_is_av] (=> (>= rangeindex 0) (and (>= (len vector) 3) (= (byte vector 0) #x41) (= (byte vector 1) #x56) (= (byte vector 2) #x3a)))
+//@   loop 1 decreases (- ei rangeindex)
+//@   assume_def[unfold_fold_at_element] after Cut#1 (fold20_def vector (segstart20 vector (+ rangeindex 1)) (+ rangeindex 1) (flat20 slci i) (valsarr20 cvss20))
+//@   assume_def[unfold_fold_at_end] exit loop1 (fold20_def vector (segstart20 vector (+ rangeindex 1)) (+ rangeindex 1) (flat20 slci i) (valsarr20 cvss20))
+//@   ensures[spec_error] (=> (and (not (= (p.rule (parseRes20 vector)) 4)) (not (= (p.rule (parseRes20 vector)) 5))) (= result.1 (p.err (parseRes20 vector))))
+//@   ensures[spec_error_element_after_last_group] (=> (= (p.rule (parseRes20 vector)) 4) (= result.1 (p.err (parseRes20 vector))))
+//@   ensures[spec_error_fifteenth_element] (=> (= (p.rule (parseRes20 vector)) 5) (= result.1 (p.err (parseRes20 vector))))
+//@   ensures[accept_iff_grammar] (= (isnil result.1) (= (p.err (parseRes20 vector)) Nil))
+//@   ensures[accept_implies_prefix] (=> (isnil result.1) (and (>= (len vector) 3) (= (byte vector 0) #x41) (= (byte vector 1) #x56) (= (byte vector 2) #x3a)))
+//@   ensures[accept_object] (=> (isnil result.1) (and (not (isnil result.0)) (wf20 (deref result.0)) (forall-in (m 0 13) (= (field20 (deref result.0) m) (select (p.vals (parseRes20 vector)) m)))))
+//@   ensures[reject_nil] (=> (not (isnil result.1)) (isnil result.0))
